@@ -33,6 +33,9 @@ func init() {
 			ruleKeyNil(r)
 			ruleValueOpaque(r)
 			ruleValuePassthrough(r)
+			ruleLoaderMapping(r)
+			ruleIteratorEndMarker(r)
+			ruleStackKeepsEveryReader(r)
 			ruleCtxAge(r, []string{"sstables.SuperSSTableReader.Scan", "sstables.SuperSSTableReader.ScanStartingAt", "sstables.SuperSSTableReader.ScanRange"})
 			ruleStackErrflow(r)
 			ruleNewestFirst(r)
@@ -47,6 +50,7 @@ func init() {
 		func(r *Report) {
 			ruleNames(r, []string{"sstable-format", "wal-format", "sorted-recovery", "sorted-compaction", "sorted-replay"})
 			ruleHandoff(r)
+			ruleSwapAfterRotate(r)
 			rulePrecedenceShape(r)
 			ruleLocks(r)
 			ruleReducer(r)
@@ -65,6 +69,7 @@ func init() {
 			ruleGeneration(r)
 			ruleEmptyIsAbsent(r)
 			ruleHeapShape(r)
+			ruleValueOpaque(r)
 			ruleRWMemstore(r)
 			ruleReaderRebuilt(r)
 			ruleCloseFlushes(r)
